@@ -225,6 +225,9 @@ def _impl_worker(args):
     mod = importlib.import_module(modname)
     out = []
     import signal
+    import linecov
+    import world
+    linecov.start(world.REPO)
 
     def _alarm(signum, frame):
         raise TimeoutError("case did not finish within %ds" % CASE_TIMEOUT)
@@ -241,7 +244,18 @@ def _impl_worker(args):
             import traceback
 
             out.append({"__harness_error__": "%s: %s\n%s" % (type(exc).__name__, exc, traceback.format_exc()[-1500:])})
-    return out
+    return out, linecov.drain()
+
+
+LINE_HITS = set()   # (file under asyncstdlib/, line) executed by any case of this run, merged over all workers
+
+
+def _merge(results):
+    obs = []
+    for out, hits in results:
+        obs.extend(out)
+        LINE_HITS.update((f, l) for f, l in hits)
+    return obs
 
 
 def observe_all(modname, cases, jobs):
@@ -251,12 +265,12 @@ def observe_all(modname, cases, jobs):
     heavy = getattr(importlib.import_module(modname), "HEAVY", False)
     n = max(1, min(jobs, len(cases) if heavy else len(cases) // 50 + 1))
     if n == 1:
-        return _impl_worker((modname, cases))
+        return _merge([_impl_worker((modname, cases))])
     size = 1 if heavy else (len(cases) + n * 4 - 1) // (n * 4)
     chunks = [cases[i:i + size] for i in range(0, len(cases), size)]
     with cf.ProcessPoolExecutor(max_workers=n) as pool:
         results = list(pool.map(_impl_worker, [(modname, c) for c in chunks]))
-    return [o for chunk in results for o in chunk]
+    return _merge(results)
 
 
 def case_hash(case):
@@ -283,16 +297,37 @@ def load_corpus(prop):
     return out
 
 
+def anchored_files(prop):
+    for line in (ROOT / "properties.jsonl").read_text().splitlines():
+        if line.strip():
+            d = json.loads(line)
+            if d["id"] == prop:
+                return list(d.get("anchors", {}).get("files", []))
+    return []
+
+
+def line_coverage(prop, src_changed):
+    """which function lines of the anchored files the cases of this run executed (advisory, see linecov.py)"""
+    try:
+        import linecov
+        import fingerprint
+        import world
+        files = sorted(set(anchored_files(prop)) | set(fingerprint.COMMON))
+        rep = linecov.report(world.REPO, files, LINE_HITS)
+        executed = set(rep["definitions_executed"])
+        rep["changed_definitions_no_case_executes"] = [c for c in src_changed
+                                                        if "::<" not in c and c not in executed]
+        del rep["definitions_executed"]
+        return rep
+    except Exception as exc:  # advisory layer: must never break a check
+        return {"error": str(exc)}
+
+
 def source_changes(prop):
     """definitions of the files this property is anchored in whose AST differs from the recorded baseline"""
     try:
         import fingerprint
-        anchors = []
-        for line in (ROOT / "properties.jsonl").read_text().splitlines():
-            if line.strip():
-                d = json.loads(line)
-                if d["id"] == prop:
-                    anchors = d.get("anchors", {}).get("files", [])
+        anchors = anchored_files(prop)
         import world
         return fingerprint.relevant(fingerprint.changed_definitions(world.REPO), anchors)
     except Exception as exc:  # the fingerprint layer is advisory: it must never break a check
@@ -478,6 +513,7 @@ def main(argv=None):
             "lean_wall_s": round(lean.wall_s, 2),
             "source_definitions_changed_since_model_validated": src_changed[:40],
             "amplified_exploration": amplified,
+            "impl_line_coverage": line_coverage(prop, src_changed),
         },
         "assumptions": list(getattr(mod, "ASSUMPTIONS", [])),
         "wall_s": round(time.time() - t0, 2),
